@@ -6,6 +6,7 @@ use moc::elem::range::MocRange;
 use moc::idx::Idx;
 use moc::mom::{HpxMOMIterator, HpxMomIter};
 use moc::moc::range::RangeMOC;
+use moc::moc::RangeMOCIterator;
 use moc::qty::{Hpx, MocQty};
 use moc::ranges::{Ranges, SNORanges};
 
@@ -80,6 +81,36 @@ fn pair_queries<C: Combo>(sink: &mut Sink, d: u8, l: &[Range<u64>], r: &[Range<u
   let ans = guarded(AssertUnwindSafe(|| {
     let v: Vec<Range<C::T>> = ml.overlapped_by_iter(&mr).collect();
     fmt_ranges(&to_u64_ranges(&v))
+  }));
+  sink.emit(&format!("q_ovl {} {}", fl, fr), &ans, nontrivial);
+  // the iterator behind `overlapped_by_iter` is a RangeMOCIterator: its hints are judged against what it then
+  // yields (at creation and after 1 and 2 `next()`), and the serialiser fed by it (size-hint driven fast path)
+  // must write exactly those ranges
+  for k in 0..3usize {
+    let line = std::panic::catch_unwind(AssertUnwindSafe(|| {
+      let mut it = ml.overlapped_by_iter(&mr);
+      for _ in 0..k {
+        it.next();
+      }
+      let last = it.peek_last().map(|r| r.start.to_u64()..r.end.to_u64());
+      let h = it.size_hint();
+      let rest: Vec<Range<C::T>> = it.collect();
+      format!("{} {} {} {}", if k == 0 { "hintok0" } else { "hintok" }, fmt_ranges(&to_u64_ranges(&rest)), crate::util::fmt_opt_range(last), crate::util::fmt_hint(h))
+    }));
+    if let Ok(line) = line {
+      sink.count("hint-node:overlapped_by");
+      sink.emit(&line, "true", nontrivial);
+    }
+  }
+  let ans = guarded(AssertUnwindSafe(|| {
+    let mut buf = Vec::new();
+    match ml.overlapped_by_iter(&mr).to_fits_ivoa(None, None, &mut buf) {
+      Ok(()) => match C::fits_ranges(buf) {
+        Some(it) => fmt_ranges(&to_u64_ranges(&it.collect::<Vec<Range<C::T>>>())),
+        None => "err:unreadable".to_string(),
+      },
+      Err(e) => format!("err:{}", e.to_string().replace(' ', "_")),
+    }
   }));
   sink.emit(&format!("q_ovl {} {}", fl, fr), &ans, nontrivial);
 }
